@@ -252,20 +252,21 @@ def build_harness(ctx):
         raise BuildFailure('pp harness does not compile against the snapshot: ' + e[-1500:])
     return exe
 
-def run_harness(ctx, dirs):
-    """one line per directory: ('ok', [(spelling, [names])]) | ('err',) | ('hang',) | ('crash', status)"""
+def run_harness_part(exe, part):
+    env = dict(os.environ, ASAN_OPTIONS='detect_leaks=0:exitcode=99:allocator_may_return_null=1', UBSAN_OPTIONS='exitcode=99')
+    rc, o, e = sh([exe] + part, timeout=60 + 6 * len(part), env=env)
+    lines = o.splitlines()
+    lines += ['crash harness-rc=%s' % rc] * (len(part) - len(lines))
+    return [parse_hide(l) for l in lines[:len(part)]]
+
+def start_harness(ctx, ex, dirs):
+    """futures of the harness runs: one result per directory, ('ok', [(spelling, [names])]) | ('err',) | ('hang',) |
+    ('crash', status); the directories are handed to several harness processes (each forks one child per directory)"""
     if not dirs:
         return []
     exe = build_harness(ctx)
-    env = dict(os.environ, ASAN_OPTIONS='detect_leaks=0:exitcode=99:allocator_may_return_null=1', UBSAN_OPTIONS='exitcode=99')
-    out = []
-    for i in range(0, len(dirs), 64):
-        part = dirs[i:i + 64]
-        rc, o, e = sh([exe] + part, timeout=60 + 12 * len(part), env=env)
-        lines = o.splitlines()
-        lines += ['crash harness-rc=%s' % rc] * (len(part) - len(lines))
-        out += lines[:len(part)]
-    return [parse_hide(l) for l in out]
+    parts = [dirs[i:i + 24] for i in range(0, len(dirs), 24)]
+    return [ex.submit(run_harness_part, exe, p) for p in parts]
 
 def parse_hide(line):
     w = line.split(' ')
@@ -322,10 +323,10 @@ def run_all(ctx, texts):
     ctx._c09_n = start + len(texts)
     live = [c for c in cases if c['toks'] is not None]
     with ThreadPoolExecutor(max_workers=max(2, NPROC)) as ex:
-        hfut = ex.submit(run_harness, ctx, [c['dir'] for c in live])
+        hfuts = start_harness(ctx, ex, [c['dir'] for c in live])
         cs = list(ex.map(lambda c: run_chibicc(ctx, c['dir']), cases))
         gs = list(ex.map(lambda c: run_gcc(ctx, c['dir']), cases))
-        hs = hfut.result()
+        hs = [r for f in hfuts for r in f.result()]
     inp = ''.join(f"{FUEL} {enc(c['toks'])}\n" for c in live)
     mo = ctx.driver('expand', inp).splitlines() if live else []
     so = ctx.driver('spec', inp).splitlines() if live else []
@@ -1142,7 +1143,10 @@ MANIFEST = {
                   'fuel bound `fuelBound defs input` = fuelE (longest replacement list) (number of entries) (input length) 0, and its output '
                   'has at most that many tokens (C09_terminates, C09_terminates_output, C09_terminates_bound_exists: lexicographic measure over '
                   'ghost levels of the pending list; the hide-set intersection of expand_macro never loses a name of the level its `)` comes '
-                  'from; arguments handed to the nested preprocess2 inherit a smaller measure); for object-like definition sets the sharper '
+                  'from; arguments handed to the nested preprocess2 inherit a smaller measure); a run that ends with anything but the fuel '
+                  'error ends the same way with any larger fuel, directive lines included (C09_fuel_irrelevant), so expansion is a total '
+                  'function of table and text (C09_expansion_total) and the fixed fuel of the correspondence runs computes the same answer '
+                  'as `fuelBound` would; for object-like definition sets the sharper '
                   'singly-exponential bound `bound defs input` (C09_terminates_partial); __COUNTER__ yields c, c+1, ... (C09_counter); '
                   'subst produces exactly the spellings of the phase-structured C11 6.10.3.1-3 specification (with placemarkers) whenever '
                   'that specification defines them, outside the two known-finding regions and without GNU/C2x extensions '
